@@ -187,7 +187,7 @@ def main():
         'checks': checks,
         'notes': 'All checks: ./check <id> --tier quick|thorough ; exit 0 / 1 (+VIOLATION line) / 2 (machinery failure). Fixed defects and open findings: known_findings.json. '
                  'The pinned baseline imports the installed wheel, not /repo/src; every check asserts it runs /repo/src. '
-                 'Self-tests of the machinery (not property checks): ./check selftest [--tier thorough] (corrupted expectations / events are noticed; 86 seeded changes in seeded/ '
+                 'Self-tests of the machinery (not property checks): ./check selftest [--tier thorough] (corrupted expectations / events are noticed; 89 seeded changes in seeded/ '
                  'turn their checks red; the 8 equivalent changes in equivalent/ leave all 20 silent; MC_Display validates the judge of rendered numbers); tools/try_reverts.sh '
                  '(every repaired defect is reported again when its fix is reverted). ./check X01 = spec/Switchboard.tla, growth beyond the listed properties, observations only.',
         'not_applicable': na,
